@@ -239,3 +239,62 @@ def parse_label(lab):
     if m.group(2):
         args = parse_value("<<" + m.group(2) + ">>")
     return m.group(1), args
+
+
+def cover_walks_dag(g, edge_filter=None, lookahead=True):
+    """Edge cover for graphs that mostly progress (few cycles): every walk = shortest prefix from the
+    initial state to a node with unvisited edges, then a greedy extension through unvisited edges."""
+    todo = {}
+    total = 0
+    for a, es in g.adj.items():
+        lst = [i for i, e in enumerate(es) if edge_filter is None or edge_filter(a, e)]
+        if lst:
+            todo[a] = lst
+            total += len(lst)
+    parent = {g.init: None}
+    order = [g.init]
+    dq = deque([g.init])
+    while dq:
+        u = dq.popleft()
+        for lab, v in g.adj[u]:
+            if v not in parent and (edge_filter is None or edge_filter(u, (lab, v))):
+                parent[v] = (u, lab)
+                order.append(v)
+                dq.append(v)
+
+    def prefix(u):
+        path = []
+        x = u
+        while parent[x] is not None:
+            pu, pl = parent[x]
+            path.append((pl, x))
+            x = pu
+        path.reverse()
+        return path
+
+    walks = []
+    for u in order:
+        while u in todo:
+            walk = prefix(u)
+            cur = u
+            while True:
+                if cur in todo:
+                    i = todo[cur].pop()
+                    if not todo[cur]:
+                        del todo[cur]
+                    lab, dst = g.adj[cur][i]
+                    walk.append((lab, dst))
+                    cur = dst
+                    continue
+                nxt = None
+                if lookahead:
+                    for lab, v in g.adj[cur]:
+                        if v in todo and v != cur and (edge_filter is None or edge_filter(cur, (lab, v))):
+                            nxt = (lab, v)
+                            break
+                if nxt is None:
+                    break
+                walk.append(nxt)
+                cur = nxt[1]
+            walks.append(walk)
+    return walks
